@@ -4,34 +4,32 @@
 //   `#[cfg(kani)] mod vp_playback;` to src/lib.rs and run
 //   `cargo kani playback -Z concrete-playback -- vp_playback` (add --release for the release profile)
 
-/// Kani concrete playback for `c16::t_constprop_u8::mutating` (check: assertion failed: x == a.clone().join(b.clone()))
+/// Kani concrete playback for `c16::t_constprop_u8::mutating` (check: assertion failed: ch == (y != a))
 #[test]
-fn kani_concrete_playback_mutating_13497532756967206175() {
+fn kani_concrete_playback_mutating_554742184460495433() {
     let concrete_vals: Vec<Vec<u8>> = vec![
-        // 253
-        vec![253],
-        // 100
-        vec![100],
-        // 101
-        vec![101],
+        // 116
+        vec![116],
+        // 116
+        vec![116],
     ];
     kani::concrete_playback_run(concrete_vals, crate::c16::t_constprop_u8::mutating);
 }
 /* native results:
 [
  {
-  "test": "kani_concrete_playback_mutating_13497532756967206175",
-  "check": "assertion failed: x == a.clone().join(b.clone())",
+  "test": "kani_concrete_playback_mutating_554742184460495433",
+  "check": "assertion failed: ch == (y != a)",
   "profile": "dev",
   "native": "FAILED",
-  "panic": "panicked at src/c16.rs:63:4:\nassertion failed: x == a.clone().join(b.clone())"
+  "panic": "panicked at src/c16.rs:68:4:\nassertion failed: ch == (y != a)"
  },
  {
-  "test": "kani_concrete_playback_mutating_13497532756967206175",
-  "check": "assertion failed: x == a.clone().join(b.clone())",
+  "test": "kani_concrete_playback_mutating_554742184460495433",
+  "check": "assertion failed: ch == (y != a)",
   "profile": "release",
   "native": "FAILED",
-  "panic": "panicked at src/c16.rs:63:4:\nassertion failed: x == a.clone().join(b.clone())"
+  "panic": "panicked at src/c16.rs:68:4:\nassertion failed: ch == (y != a)"
  }
 ]
 */
